@@ -163,7 +163,7 @@ func gen(c *core.Ctx) error {
 	c.Rule("send histories on real keyed Streams (0..2 cleartext messages per direction before keying incl. none, message sizes incl. empty, interleaved directions, secrets with encryption toggled off/on, counters started near 2^32 through imported state): every protected frame is opened by an independent reference AES-GCM codec (nonce = base IV with leading 32-bit word + counter, IV on first frame only, AAD = [digests] header) and compared with the Coq model's predicted IV/nonce/AAD/plaintext; reference-built frames are fed to the real receiver. non-trivial = case with at least one protected frame; distinct by description")
 	c.Assume("freshness of the random IV is only checked as pairwise distinctness over the run")
 	apis := []string{"complete", "msgall", "sre"}
-	pres := [][]ss.Data{nil, {ss.Lit([]byte("x"))}, {ss.Lit([]byte("abc")), ss.Lit(nil)}}
+	pres := [][]ss.Data{nil, {ss.Lit([]byte("x"))}, {ss.Lit([]byte("abc")), ss.Lit(nil)}, {ss.Lit(nil)}, {ss.Lit(nil), ss.Lit(nil)}}
 	k := 0
 	ivs := map[string]bool{}
 	for _, pa := range pres {
@@ -272,6 +272,7 @@ func gen(c *core.Ctx) error {
 			c.Nontrivial(string(js))
 		}
 	}
+	writeFaults(c)
 	// reference-built frames into the real receiver
 	for pa := 0; pa < 3; pa++ {
 		for pb := 0; pb < 3; pb++ {
@@ -316,3 +317,56 @@ func replay(raw json.RawMessage) error {
 }
 
 func main() { core.Main("C12", gen, replay) }
+
+// writeFaults: a Write that reports an error after its bytes left must not make the stream reuse
+// a nonce: every frame that reached the wire, the failed one included, must open under the
+// reference codec at its own counter, with pairwise distinct nonces.
+func writeFaults(c *core.Ctx) {
+	bg := context.Background()
+	for failAt := 1; failAt <= 4; failAt++ {
+		for _, pre := range []int{0, 1} {
+			ca, cb, ab, _ := ss.Pair()
+			a, b := stream.NewStream(ca), stream.NewStream(cb)
+			d := ss.NewDir(key)
+			other := ss.NewDir(key)
+			for i := 0; i < pre; i++ {
+				a.SendMessage(bg, []byte("clear"))
+				fr, _ := ss.ParseFrames(ab.Pending())
+				for _, f := range fr {
+					ss.NoteClear(d, other, f)
+				}
+				b.ReceiveCompleteMessage(bg)
+			}
+			a.SetSymmetricKey(key)
+			b.SetSymmetricKey(key)
+			ca.FailWriteAt = pre + failAt
+			sentErr := 0
+			for i := 0; i < 6; i++ {
+				if err := a.SendMessage(bg, []byte(fmt.Sprintf("message %d", i))); err != nil {
+					sentErr++
+				}
+			}
+			c.OracleCheck()
+			c.Evaluated(1)
+			c.Count("write-fault")
+			fr, _ := ss.ParseFrames(ab.Pending())
+			seen := map[string]bool{}
+			desc := map[string]interface{}{"write_fault_at": failAt, "clear_prefix": pre}
+			if sentErr != 1 {
+				c.OracleFail("write-fault-harness", fmt.Sprintf("expected exactly one reported write error, got %d", sentErr), desc)
+			}
+			for i, f := range fr {
+				o, err := d.Open(f)
+				if err != nil {
+					c.OracleFail("format", fmt.Sprintf("after a write error on frame %d, frame %d on the wire does not open at its own counter under the reference codec (%v): counter/nonce discipline broken", failAt-1, i, err), desc)
+					break
+				}
+				k := hex.EncodeToString(o.Nonce)
+				if seen[k] {
+					c.OracleFail("format", fmt.Sprintf("nonce reused after a write error (frame %d)", i), desc)
+				}
+				seen[k] = true
+			}
+		}
+	}
+}
